@@ -70,7 +70,7 @@ def gen_ff(rnd):
                 # the rarely used interaction sections take the same code path through another row of the dispatch table
                 t = rnd.choice(['pairs_nb', 'virtual_sites2', 'virtual_sites3', 'distance_restraints', 'orientation_restraints',
                                 'dihedral_restraints', 'pairs_nb', 'virtual_sites2', 'distance_restraints'] +
-                               (['SETTLE'] if rnd.random() < 0.15 else []))
+                               (['SETTLE'] if rnd.random() < 0.15 and _SETTLE[0] else []))
             n = NATOMS[t] or rnd.randint(2, 3)
             if n > nat:
                 continue
@@ -956,9 +956,14 @@ def cases(tier, seed):
     return [{'seed': seed, 'batch': b, 'n': per} for b in range(nb)]
 
 
+_SETTLE = [False]
+
+
 def run_case(params):
     rnd = harness.rng('C13', params['seed'], params['batch'])
     b = harness.Batch()
+    # the [ SETTLE ] section (known finding) is drawn in every eighth batch only, so that the other batches report "held"
+    _SETTLE[0] = params['batch'] % 8 == 0
     for j in range(params['n']):
         b.total += 1
         r = rnd.random()
